@@ -43,7 +43,9 @@ def coq_comp(c, comps=None):
     def chain_of(i):
         ch = list(i["chain"])
         if comps is not None and i["src"][1] in comps[i["src"][0]].get("shared_out", []):
-            ch = ch + [["pass"]]  # the shared pass-through adapter at the source output
+            sd = dict((o, d) for o, d in comps[i["src"][0]].get("shared_delay", []))
+            # the shared adapter at the source output: pass-through, or ONE DelayFixed serving all consumers
+            ch = ch + ([["fixed", sd[i["src"][1]]]] if i["src"][1] in sd else [["pass"]])
         return ch
     ins = L(C("mkIn", P(N(i["src"][0]), N(i["src"][1])), L(coq_adapter(a) for a in chain_of(i))) for i in c["inputs"])
     if c["kind"] == "T":
@@ -645,3 +647,24 @@ def gen_pull_ring(rng):
     rng.shuffle(order)
     maxstep = max(max(c["steps"]) for c in comps if c["kind"] == "T")
     return {"comps": permute(comps, order), "end": rng.choice([2, 3, 5]) * maxstep + rng.choice([0, 1])}
+
+
+def gen_shared_delay(rng):
+    """One producer whose output fans out behind ONE shared DelayFixed to 2-3 consumers that start at DIFFERENT times
+    (and optionally carry their own adapters): the delay adapter's initial time is the producer's, whoever asks."""
+    unit = rng.choice(UNITS)
+    sp = unit * rng.choice([1, 1, 2])
+    d = sp * rng.choice([1, 2, 3, 4])
+    prod = {"kind": "T", "start": 0, "steps": [sp], "initpull": False, "nout": 1, "inputs": [],
+            "shared_out": [0], "shared_delay": [[0, d]]}
+    comps = [prod]
+    for k in range(rng.choice([2, 2, 3])):
+        start = sp * rng.choice([0, 1, 2, 3, 5])
+        comps.append({"kind": "T", "start": start, "steps": [sp * rng.choice([1, 2, 3])], "initpull": rng.random() < 0.5,
+                      "nout": 0, "inputs": [{"src": [0, 0], "chain": [["pass"]] if rng.random() < 0.3 else []}]})
+    if len({c["start"] for c in comps[1:]}) == 1:
+        comps[1]["start"] += 2 * sp
+    order = list(range(len(comps)))
+    rng.shuffle(order)
+    maxstep = max(max(c["steps"]) for c in comps)
+    return {"comps": permute(comps, order), "end": max(c["start"] for c in comps) + rng.choice([2, 3, 5]) * maxstep}
